@@ -5,6 +5,7 @@ CONSTANTS
   ConnOf <- ConnOfDef
   Items <- ItemsDef
   WaitForConns = TRUE
+  Aging = TRUE
   DrainGracefully = TRUE
   MaxSteps = 9
 INVARIANT Export
